@@ -48,7 +48,20 @@ def ilpSubRows (j : J) : Option J := do
   let rows := rowsCplex t n 0 active
   pure (J.l [J.l (rows.map rowJ), J.l ((objective t n).map fun p => J.l [varJ p.1, J.n p.2]), toJ (univOf sub)])
 
+/-- [S, D, keep, observed sub-dataset, noTiePruning]: the observed sub-dataset must be the model's projection up to the
+    order of bucket members; rows / objective of the CPLEX model are built on the OBSERVED sub-dataset (its id numbering
+    follows CPython's iteration order of the freshly built sets) -/
+def ilpSubRowsObs (j : J) : Option J := do
+  let (S, D, keep, sub, active) ← (fromJ j : Option (Scheme × Dataset × List Elem × Dataset × Bool))
+  let proj := projectKeepAll D keep
+  let same := proj.length == sub.length && (proj.zip sub).all fun p =>
+    p.1.length == p.2.length && (p.1.zip p.2).all fun q => q.1.all (q.2.contains ·) && q.2.all (q.1.contains ·)
+  let t := costMatrix S (getPositions sub)
+  let n := t.length
+  let rows := rowsCplex t n 0 active
+  pure (J.l [J.l (rows.map rowJ), J.l ((objective t n).map fun p => J.l [varJ p.1, J.n p.2]), toJ same])
+
 def exactOps : List (String × (J → Option J)) :=
-  [("ilp.rows", ilpRows), ("ilp.subrows", ilpSubRows), ("ilp.decode", ilpDecode), ("c05.holds", c05Holds)]
+  [("ilp.rows", ilpRows), ("ilp.subrows", ilpSubRows), ("ilp.subrowsobs", ilpSubRowsObs), ("ilp.decode", ilpDecode), ("c05.holds", c05Holds)]
 
 end Corankco.Driver
